@@ -438,6 +438,27 @@ func c13(r *Report) {
 					}
 				}
 			}
+			// ... or the list is one of the values of the slice the loop runs over (`errs := []error{err};
+			// if merr, ok := ...; ok { errs = merr.Errors() }; for _, e := range errs`)
+			for _, in := range instrs(ap) {
+				var x ssa.Value
+				switch y := in.(type) {
+				case *ssa.IndexAddr:
+					x = y.X
+				case *ssa.Index:
+					x = y.X
+				case *ssa.Range:
+					x = y.X
+				}
+				if x == nil {
+					continue
+				}
+				for _, l := range resolveAll(x) {
+					if c, isC := l.(*ssa.Call); isC && calleeName(c) == "(*M.MultiError).Errors" {
+						ok = true
+					}
+				}
+			}
 			r.Decide("flow", "M/verify.appendError lists every error of a MultiError", ok, "iterates Errors()", "the verification handler no longer lists the individual errors", ap.Pos())
 			// one entry per error: the message of an entry is the error's own text, whole (an
 			// error whose text has several lines is still one unmet expectation)
@@ -820,6 +841,42 @@ func c13(r *Report) {
 							res = true
 						}
 					}
+					// ... or it is handed to a local function that calls the setters on its parameter
+					for _, sc := range calls(mn) {
+						var fn *ssa.Function
+						for _, l := range resolveAll(sc.Common().Value) {
+							if mc, isMc := l.(*ssa.MakeClosure); isMc {
+								fn, _ = mc.Fn.(*ssa.Function)
+							}
+						}
+						if fn == nil || fn.Blocks == nil || fn.Parent() != mn {
+							continue
+						}
+						for k, a := range sc.Common().Args {
+							if !w.backSlice(a, flowOpt{})[ssa.Value(c)] || k >= len(fn.Params) {
+								continue
+							}
+							for _, ic := range calls(fn) {
+								com := ic.Common()
+								var recv ssa.Value
+								name := ""
+								if com.IsInvoke() {
+									recv, name = com.Value, com.Method.Name()
+								} else if sf := com.StaticCallee(); sf != nil && len(com.Args) > 0 {
+									recv, name = com.Args[0], sf.Name()
+								}
+								if recv == nil || !w.backSlice(recv, flowOpt{})[ssa.Value(fn.Params[k])] || !postDominatesEntry(ic) {
+									continue
+								}
+								switch name {
+								case "SetRequestVerifier":
+									req = true
+								case "SetResponseVerifier":
+									res = true
+								}
+							}
+						}
+					}
 					r.Decide("flow", "cmd/proxy main: the handler made by "+ctor+" is given the request and the response verifier", req && res, "SetRequestVerifier and SetResponseVerifier are both called on it", "a verification handler is wired to one side only: a reset (or a query) over HTTP leaves the other side's verifiers untouched although it answers 204 / 200", c.Pos())
 				}
 			}
@@ -1064,4 +1121,11 @@ func indexOf(xs []string, x string) int {
 func asValue(in ssa.Instruction) ssa.Value {
 	v, _ := in.(ssa.Value)
 	return v
+}
+
+// postDominatesEntry: the instruction lies on every path from the entry of its
+// function to a return (no return is reachable from the entry without it).
+func postDominatesEntry(i ssa.Instruction) bool {
+	g := G(i.Parent())
+	return g.PathTo([]ssa.Instruction{g.Entry()}, true, func(x ssa.Instruction) bool { return x == i }, isReturn) == nil
 }
